@@ -3,6 +3,8 @@ import SiaProofs.Props.C02LoopGen
 import SiaProofs.Props.C01TxnGen
 import SiaProofs.Props.C01SfGen
 import SiaProofs.Props.C03AttGen
+import SiaProofs.Props.C01V1Gen
+import SiaProofs.Props.C03V1Gen
 
 /-!
 # The top of v2 transaction validation, on REGENERATED code: `consensus.ValidateV2Transaction` as a whole
@@ -149,5 +151,70 @@ example : ValidateV2Transaction { Ext.trivial with V2TransactionWeight := fun _ 
     { base := { Network := { HardforkV2 := { AllowHeight := 5 } } } } {}
     = .ok (some "v2 transactions are not allowed until v2 hardfork begins") := by rfl
 example : ValidateV2Transaction Ext.trivial {} {} = .ok (some "transactions cannot be empty") := by rfl
+
+/-- The v1 counterpart: `consensus.ValidateTransaction` regenerated whole.  An accepted v1 transaction is validated
+strictly below the v2 require height (C08), within the block weight, passes the phases that stay in `Ext`, balances in
+siacoins over ℕ with every input individually checked (C01, C03, C08), and balances in siafunds modulo 2^64 with every
+siafund input individually checked (C01, C03). -/
+theorem c01_v1_transaction_accepted_gen (ext : Ext) (ms : MidState) (txn : Transaction) (ts : V1TransactionSupplement)
+    (hw : V1CurWF ext ms ts txn) (h : ValidateTransaction ext ms txn ts = .ok none) :
+    State.childHeight ms.base < ms.base.Network.HardforkV2.RequireHeight ∧
+    ext.validateCurrencyOverflow ms txn = none ∧
+    ext.TransactionWeight ms.base txn ≤ State.MaxBlockWeight ms.base ∧
+    ext.validateMinimumValues ms txn = none ∧
+    (v1InSum ext ms ts txn = v1OutSum txn + v1PayoutSum txn + v1FeeSum txn ∧
+      ∀ sci ∈ txn.SiacoinInputs, V1InputOk ext ms ts sci) ∧
+    ((∀ sfi ∈ txn.SiafundInputs, C03.V1SiafundInputOk ext ms ts sfi) ∧
+      (txn.SiafundInputs.map (fun i => (C03.sfParent ext ms ts i).SiafundOutput.Value)).sum % 18446744073709551616
+        = (txn.SiafundOutputs.map (fun o => o.Value)).sum % 18446744073709551616) ∧
+    ext.validateFileContracts ms txn ts = none ∧
+    ext.validateArbitraryData ms txn = none ∧
+    ext.validateSignatures ms txn = none := by
+  unfold ValidateTransaction at h
+  by_cases g1 : State.childHeight ms.base ≥ ms.base.Network.HardforkV2.RequireHeight
+  · simp [g1, pure, Except.pure] at h
+  simp only [g1, decide_false, Bool.false_eq_true, if_false] at h
+  cases g2 : ext.validateCurrencyOverflow ms txn with
+  | some e => simp [g2, pure, Except.pure] at h
+  | none =>
+  simp only [g2, ne_eq, not_true_eq_false, decide_false, Bool.false_eq_true, if_false] at h
+  by_cases g4 : ext.TransactionWeight ms.base txn > State.MaxBlockWeight ms.base
+  · simp [g4, pure, Except.pure] at h
+  simp only [g4, decide_false, Bool.false_eq_true, if_false] at h
+  cases g3 : ext.validateMinimumValues ms txn with
+  | some e => simp [g3, pure, Except.pure] at h
+  | none =>
+  simp only [g3, ne_eq, not_true_eq_false, decide_false, Bool.false_eq_true, if_false, bind, Except.bind] at h
+  cases g5 : validateSiacoins ext ms txn ts with
+  | error e => simp [g5] at h
+  | ok r5 =>
+  cases r5 with
+  | some e => simp [g5, pure, Except.pure] at h
+  | none =>
+  simp only [g5, ne_eq, not_true_eq_false, decide_false, Bool.false_eq_true, if_false] at h
+  cases g6 : validateSiafunds ext ms txn ts with
+  | error e => simp [g6] at h
+  | ok r6 =>
+  cases r6 with
+  | some e => simp [g6, pure, Except.pure] at h
+  | none =>
+  simp only [g6, ne_eq, not_true_eq_false, decide_false, Bool.false_eq_true, if_false] at h
+  cases g7 : ext.validateFileContracts ms txn ts with
+  | some e => simp [g7, pure, Except.pure] at h
+  | none =>
+  simp only [g7, ne_eq, not_true_eq_false, decide_false, Bool.false_eq_true, if_false] at h
+  cases g8 : ext.validateArbitraryData ms txn with
+  | some e => simp [g8, pure, Except.pure] at h
+  | none =>
+  simp only [g8, ne_eq, not_true_eq_false, decide_false, Bool.false_eq_true, if_false] at h
+  cases g9 : ext.validateSignatures ms txn with
+  | some e => simp [g9, pure, Except.pure] at h
+  | none =>
+  obtain ⟨b1, _, b3⟩ := c01_v1_txn_balance_gen ext ms txn ts hw g5
+  exact ⟨by omega, rfl, by omega, rfl, ⟨b1, b3⟩, C03.c03_v1_siafund_inputs_gen ext ms txn ts g6, rfl, rfl, rfl⟩
+
+example : ValidateTransaction Ext.trivial { base := { Network := { HardforkV2 := { RequireHeight := 5 } } } } {} {} = .ok none := by rfl
+example : ValidateTransaction Ext.trivial {} {} {}
+    = .ok (some "v1 transactions are not allowed after v2 hardfork is complete") := by rfl
 
 end C01
